@@ -46,6 +46,17 @@ class LoopMixin:
             goal = self.spec_bool(st, self.sev(st, expr, env, c.module))
             self.add_obligation('inv', st, goal, f'loop{n}.{label}.{which}', node, detail=ast.unparse(expr))
 
+    def item_facts(self, st: St, spec, node):
+        """loop_item_fact(n, expr): a fact about the current element, proved (obligation) from the invariant and the
+        precondition, then assumed and used as a Python-side type hint for the loop variables"""
+        c = spec['contract']
+        for j, expr in enumerate(spec.get('item', [])):
+            env = self.loop_env(st, spec, {})
+            goal = self.spec_bool(st, self.sev(st, expr, env, c.module))
+            self.add_obligation('inv', st, goal, f'loop{self.loop_ordinal(node)}.item_fact{j}', node, detail=ast.unparse(expr))
+            st.assume(goal)
+            self.narrow_from_requires(st, expr, st.loc, {}, env, c)
+
     def assume_inv(self, st: St, spec, extra, node):
         c = spec['contract']
         env = self.loop_env(st, spec, extra)
@@ -149,10 +160,11 @@ class LoopMixin:
         it_st.assume(p_i1[z3.Length(p_i1) - 1] == elem)
         it_st.assume(AND(z3.Length(p_i) == i, z3.Length(p_i1) == i + 1))
         if self.feasible(it_st):
-            for a in self.assign(it_st, s.target, SV(elem)):
+            for a in self.assign(it_st, s.target, self.probe_kind(it_st, SV(elem), 1500)):
                 if a.kind != 'ok':
                     outs.append(a)
                     continue
+                self.item_facts(a.st, spec, s)
                 for o in self.ex_block(a.st, s.body):
                     if o.kind in ('ok', 'cont'):
                         self.check_inv(o.st, spec, {'_i': RawV(i + 1), '_seq': seqv}, 'preserved', s)
@@ -166,6 +178,34 @@ class LoopMixin:
         self.assume_inv(ex, spec, {'_i': RawV(z3.Length(seq)), '_seq': seqv}, s)
         for t in targets:
             pass
+        outs.append(Out('ok', ex))
+        return outs
+
+    def for_concrete_inv(self, st: St, items, s: ast.For, spec):
+        """Loop over a collection whose elements are known constants (e.g. the reflection summary of dir()): the body
+        is verified once per element from the invariant (complete, no bound), without multiplying paths."""
+        outs = []
+        seqv = SeqTermV(self.seq_of_terms([self.to_term(st, x) for x in items]))
+        self.check_inv(st, spec, {'_i': RawV(I(0)), '_seq': seqv}, 'init', s)
+        targets = {n.id for n in ast.walk(s.target) if isinstance(n, ast.Name)}
+        h = st.copy()
+        self.loop_havoc(h, spec, s.body, s, targets)
+        for idx, item in enumerate(items):
+            it_st = h.copy()
+            self.assume_inv(it_st, spec, {'_i': RawV(I(idx)), '_seq': seqv}, s)
+            for a in self.assign(it_st, s.target, item):
+                if a.kind != 'ok':
+                    outs.append(a)
+                    continue
+                for o in self.ex_block(a.st, s.body):
+                    if o.kind in ('ok', 'cont'):
+                        self.check_inv(o.st, spec, {'_i': RawV(I(idx + 1)), '_seq': seqv}, f'preserved@{idx}', s)
+                    elif o.kind == 'brk':
+                        outs.append(Out('ok', o.st))
+                    else:
+                        outs.append(o)
+        ex = h.copy()
+        self.assume_inv(ex, spec, {'_i': RawV(I(len(items))), '_seq': seqv}, s)
         outs.append(Out('ok', ex))
         return outs
 
@@ -203,10 +243,15 @@ class LoopMixin:
                 it_st.assume(self.older(it_st, val))
                 item = TupleV([SV(k), SV(val)])
             it_st.assume(self.older(it_st, k))
+            if isinstance(item, TupleV):
+                item = TupleV([self.probe_kind(it_st, x, 1500) for x in item.items])
+            else:
+                item = self.probe_kind(it_st, item, 1500)
             for a in self.assign(it_st, s.target, item):
                 if a.kind != 'ok':
                     outs.append(a)
                     continue
+                self.item_facts(a.st, spec, s)
                 for o in self.ex_block(a.st, s.body):
                     if o.kind in ('ok', 'cont'):
                         self.check_inv(o.st, spec, {'_seen': RawV(z3.Store(seen, k, TRUE)), '_n': RawV(n + 1)}, 'preserved', s)
